@@ -7,14 +7,66 @@ The rules are phrased on *roles*, not on the spelling of the analysed code:
   the result of find_mz_offset named MZ, the index of a `range` loop named `_i_`; positions and bounds are compared as
   polynomials over these roles, conditions as sets of `p >= 0` facts taken from the dominating branch edges;
 * case distinctions (which machines a scanner accepts / maps to which architecture, which optional header is parsed) are
-  decided by evaluating the dominating conditions for every Machine value, including the conditions that dominated the
-  definitions a value was traced through;
-* loop-free code (BeaconConfig.version, BeaconVersion.__init__, the lookups, find_magic_mz) is evaluated symbolically per
-  scenario (`_SymExec`), so nested ifs / guard clauses / conditional expressions / temporaries / walrus / comprehensions
-  over literal sequences / loops over literal tuples all yield the same values.
+  decided by evaluating the dominating conditions for every Machine value of the code's own vocabulary (the
+  IMAGE_FILE_MACHINE_* defines of PE_DEF and of the reference table) plus one "any other value" case, including the
+  conditions that dominated the definitions a value was traced through;
+* loop-free code (BeaconConfig.version, BeaconVersion.__init__, the lookups, find_magic_mz) is walked path-wise
+  (`_SymExec`): every value stays a symbolic *term* over the inputs (never a concrete datum), a branch is pruned only
+  when its test is decided by the named assumption of the case under analysis (the abstract outcomes of the code's own
+  tests: export stamp None / 0 / non-zero, optional regex group took part or not, DOS stub found or not), every other
+  test forks; so nested ifs / guard clauses / conditional expressions / temporaries / walrus / comprehensions over
+  literal sequences / loops over literal tuples all yield the same terms;
+* the version regex is judged on its parsed syntax tree (`re._parser.parse`), never by matching strings.
 
 An obligation is *undecided* only when the construct it talks about cannot be located (no DOS header parse, no candidate
-loop over a range, a value that is not computed from the match groups, a statement kind the evaluator does not model ...).
+loop over a range, a value that is not computed from the match groups, a statement kind the path walk does not model, a
+regex construct outside the recognised forms ...).
+
+Technique
+---------
+(numbers refer to the ALLOWED list of RULES_GUIDE.md, "What counts as static here"; no rule interprets analysed code on
+concrete data, enumerates numeric inputs, unrolls over input sizes, or matches sample strings)
+
+R1  6 (PE_DEF parsed by the C-definition parser; struct sizes, field offsets/widths and #defines compared completely
+    with the PE/COFF reference table).
+R2  1, 3 (file-position typestate of csverif.cursor: seek/parse/read sites with symbolic positions; positions
+    canonicalised to polynomials over roles by substituting definitions and compared in SymPoly normal form; a `range`
+    loop contributes its index as the symbol `_i_`, the body is looked at once), 2 (the conditions under which a section
+    is chosen are the dominating branch edges, turned into a set of `p >= 0` facts and compared by set inclusion with
+    the two required facts; lemma L1), 6 (constant folding of the data-directory index).
+R3  1, 3 (canonical summary of each scanner: search range, start term, header positions, e_lfanew facts, exception
+    handlers - compared structurally), 2 + 5 (accepted machines, machine -> architecture and optional-header variant:
+    three-valued evaluation of the dominating conditions per Machine value of the code's/reference vocabulary plus one
+    "any other value" case whose comparisons with constants outside the vocabulary stay unknown), 6 (literal dict
+    lookups on the Machine field resolved per case).
+R4  6 (the two version tables are read as constant dict displays and checked completely: every value is parsed with
+    the checker's own format parser - the analysed data are constants of the tables, no code of the package is involved -
+    keys unique, (version, date) monotone in key order, releases contiguous).
+R5  precedence: 3 (path-wise value flow through BeaconConfig.version, returned calls resolved and their arguments
+    bound) + 5/2 (case analysis over the abstract outcomes of the truth test of an Optional[int]: None, 0, non-zero;
+    lemmas L2, L3); lookups: 3 (returned term) + 1; regex: 6 (syntax tree of REGEX_VERSION from `re._parser.parse`:
+    named groups, digit classes, repeat bounds, the optional sub-pattern, literal separators; the repeat bounds are
+    compared with the component widths found in the two tables; lemma L4); constructor: 3 + 5 (path-wise value flow
+    with the match object symbolic; cases: optional group took part / did not; lemmas L4, L5); terms compared
+    structurally.
+R6  1, 3 (the reads that flow into the returned pair; positions and lengths as polynomials; accumulating loops and
+    `sum(..)` over the section table summarised once as a symbolic SUM atom - no unrolling), 2 + 4 (the prepend read is
+    dominated by a fact that excludes image base 0: nonzero/interval reasoning on the dominating facts, lemma L6),
+    6 (DOS stub constants), find_magic_mz: 3 + 5 (path-wise value flow; cases: each of the two stubs found / not found -
+    the outcomes of the code's own searches; lemmas L7, L8).
+
+Lemmas (each also listed in rep.trusted_base)
+L1  for integers, `a < b` is `b - a - 1 >= 0`, `a <= b` is `b - a >= 0`, and the negation of `<`/`<=` is `>=`/`>`.
+L2  the truth value of an Optional[int] is False exactly for None and 0.
+L3  a PE time stamp is an unsigned field: non-zero means > 0 (so `> 0`, `>= 1`, `!= 0` and truthiness coincide).
+L4  a capturing group whose sub-pattern has minimum width >= 1 over a digit class is, when it took part in the match, a
+    non-empty string of digits (truthy, accepted by int()); a group inside a `?` repeat that did not take part is None.
+L5  Match[k] and Match.groupdict()[k] equal Match.group(k) for a group name k.
+L6  for an integer m: `m > 0`, `m >= k` (k >= 1), `m != 0` and truthiness of m each exclude m == 0.
+L7  bytes.find returns -1 when the needle does not occur and an index >= 0 when it does; `x in b` holds exactly when
+    b.find(x) >= 0; b.index(x) equals b.find(x) when x occurs.
+L8  comparisons of a value known to be >= 0 with an integer literal are decided by the sign of the literal where that
+    suffices (`v >= 0`, `v > -1`, `v != -1`, `v < 0`, `v == -1` ...), otherwise both outcomes are followed.
 """
 
 from __future__ import annotations
@@ -24,12 +76,21 @@ import copy
 import datetime
 import re
 
+try:  # the regex *parser* of CPython: used to obtain the syntax tree of the analysed pattern, never to match a string
+    from re import _constants as _sre_c, _parser as _sre_parse
+except ImportError:  # Python < 3.11
+    import sre_constants as _sre_c
+    import sre_parse as _sre_parse
+
 from csverif import tables
 from csverif.absint import SymPoly
 from csverif.astutil import assignments_to, bind_args, compare_parts, const_eval, dotted, fn_calls, is_none, module_env, NotConst, params, src, statements, strip_cast
 from csverif.cursor import CursorWalk
 from csverif.q import FuncView, dominating_conditions
 
+# The checker's own description of the format of a table value.  It is applied only to the string constants of the two
+# version tables (data of the analysed module, device 6: complete table check) - never to judge the analysed regex, whose
+# syntax tree is inspected instead (_r5_regex).
 VERSION_RE = re.compile(r"^Cobalt Strike (\d+)\.(\d+)(?:\.(\d+))? \((\w{3}) (\d{2}), (\d{4})\)$")
 MONTHS = {m: i + 1 for i, m in enumerate(["Jan", "Feb", "Mar", "Apr", "May", "Jun", "Jul", "Aug", "Sep", "Oct", "Nov", "Dec"])}
 
@@ -51,12 +112,34 @@ def run(ctx):
         "header, section table, export directory, PE magic, prepend and append bytes are read at the position the format "
         "prescribes and that the export section is the one whose virtual range contains the rva; the two scanners are "
         "compared on a canonical summary (range, start, positions, e_lfanew constraint, accepted machines, EOF handling) and "
-        "their machine handling is decided by case distinction over the Machine values; the two version tables are checked "
-        "completely (shape of every value with an independent regex and date parser, monotone in key order, contiguous "
-        "releases); version precedence, the constructor's tuple/date and find_magic_mz are evaluated symbolically per scenario."
+        "their machine handling is decided by case distinction over the Machine constants of the code and the reference "
+        "plus one 'any other value' case; the two version tables are checked completely (shape of every value with an "
+        "independent format and date parser, monotone in key order, contiguous releases); the version regex is judged on "
+        "its parsed syntax tree (named groups, digit classes, repeat bounds against the component widths of the tables, "
+        "optional patch sub-pattern, literal separators); version precedence, the constructor's tuple/date and find_magic_mz "
+        "are decided by path-wise value flow with symbolic terms, one walk per abstract outcome of the code's own tests "
+        "(export stamp None/0/non-zero; patch group took part or not; each DOS stub found or not). No analysed code is "
+        "run on concrete data and no string is matched against the analysed regex."
     )
-    rep.not_decided = ["unusual images (SizeOfOptionalHeader != struct size, overlapping sections)", "timestamp -> release truth of each table row"]
-    rep.trusted_base = ["CPython ast", "C-definition parser", "PE/COFF reference layout in csverif/tables.py", "SymPoly normal form", "scenario evaluator of rules/c18.py (_SymExec)"]
+    rep.not_decided = [
+        "unusual images (SizeOfOptionalHeader != struct size, overlapping sections)",
+        "timestamp -> release truth of each table row",
+        "version regexes outside the recognised syntax-tree forms (alternations, lazy/possessive repeats, look-arounds, inline flags, named groups with other sub-patterns): undecided",
+        "loop-free functions containing statement kinds the path walk does not model (try, while, loops over non-literal sequences): undecided",
+    ]
+    rep.trusted_base = [
+        "CPython ast", "C-definition parser", "PE/COFF reference layout in csverif/tables.py", "SymPoly normal form",
+        "CPython's regex parser (re._parser.parse, flags=0) for the syntax tree of REGEX_VERSION",
+        "path-wise term builder of rules/c18.py (_SymExec): symbolic terms, branches pruned only by the named case assumptions",
+        "L1: integer a < b <=> b - a - 1 >= 0; a <= b <=> b - a >= 0; not(a < b) <=> a >= b",
+        "L2: an Optional[int] is falsy exactly for None and 0",
+        "L3: a PE time stamp is unsigned: non-zero <=> > 0",
+        "L4: a group with a digit-class sub-pattern of minimum width >= 1 that took part in the match is a non-empty digit string (truthy, int() accepts it); an optional group that did not take part is None",
+        "L5: Match[k] == Match.groupdict()[k] == Match.group(k)",
+        "L6: m > 0, m >= k (k >= 1), m != 0 and truthiness of an integer m each exclude m == 0",
+        "L7: bytes.find gives -1 when absent and an index >= 0 when present; x in b <=> b.find(x) >= 0; b.index(x) == b.find(x) when present",
+        "L8: a value >= 0 compared with an integer literal is decided by the literal's sign where that suffices, else both outcomes are followed",
+    ]
     rep.exhaustive = True
     r1(ctx)
     r2(ctx)
@@ -486,6 +569,68 @@ def _ineqs(cn, facts, extra=None):
     return out
 
 
+def _excludes_zero(cn, facts, atom):
+    """Do the (test, polarity) facts entail `atom != 0` for the integer role `atom`?  Nonzero / interval reasoning on the
+    facts themselves (lemma L6: m > 0, m >= k with k >= 1, m <= k with k <= -1, m != 0, m == k with k != 0 and the
+    truthiness of m each exclude m == 0).  True: entailed; False: every fact that mentions the role is of a recognised
+    form and none excludes zero; None: some fact mentions the role in a form that is not recognised."""
+    A = SymPoly.atom(atom)
+    unknown = False
+
+    def offset(p):
+        """k when p == atom + k, ('-', k) when p == -atom + k, else None"""
+        k = (p - A).const_value()
+        if k is not None:
+            return ("+", k)
+        k = (p + A).const_value()
+        if k is not None:
+            return ("-", k)
+        return None
+
+    for test, pol0 in facts:
+        for leaf, pol in _flatten(test, pol0):
+            c = cn.canon(leaf)
+            if isinstance(c, ast.Call) and dotted(c.func) == "bool" and len(c.args) == 1 and not c.keywords:
+                c = c.args[0]
+            if not any(isinstance(n, ast.Name) and n.id == atom for n in ast.walk(c)):
+                continue
+            if isinstance(c, ast.Name):
+                if pol:
+                    return True
+                continue  # `not m`: m == 0
+            if not isinstance(c, ast.Compare):
+                unknown = True
+                continue
+            parts = compare_parts(c, mirrored=False)
+            if not pol and len(parts) != 1:
+                unknown = True
+                continue
+            for l, op, r in parts:
+                if isinstance(op, (ast.Is, ast.IsNot)) and (is_none(l) or is_none(r)):
+                    continue  # nullness says nothing about zero
+                lp, rp = _poly(l), _poly(r)
+                if isinstance(op, (ast.Lt, ast.LtE, ast.Gt, ast.GtE)):
+                    o = offset(_rel(lp, op, rp, pol))
+                    if o is None:
+                        unknown = True
+                    elif o[0] == "+" and -o[1] >= 1:  # atom + k >= 0 with -k >= 1
+                        return True
+                    elif o[0] == "-" and o[1] <= -1:  # -atom + k >= 0 with k <= -1
+                        return True
+                elif isinstance(op, (ast.Eq, ast.NotEq)):
+                    o = offset(lp - rp)
+                    if o is None:
+                        unknown = True
+                        continue
+                    equal = isinstance(op, ast.Eq) == pol  # the fact is `atom == c0` (True) or `atom != c0` (False)
+                    c0 = -o[1] if o[0] == "+" else o[1]
+                    if (equal and c0 != 0) or (not equal and c0 == 0):
+                        return True
+                else:
+                    unknown = True
+    return None if unknown else False
+
+
 def _dom_facts(ctx, f, node):
     seen, out = set(), []
     for _t, pol, n in dominating_conditions(ctx, f, node):
@@ -525,15 +670,42 @@ def _const_of(ctx, f, e):
 
 
 # ---------------------------------------------------------------------------- the Machine field as a case distinction
-def _machine_values(ctx):
+class _Other:
+    """The "any other value" case of a case distinction: differs from every constant of the vocabulary, nothing else is
+    known about it (its truth value and its relation to constants outside the vocabulary stay unknown)."""
+
+    def __repr__(self):
+        return "other"
+
+
+_OTHER = _Other()
+
+
+def _mkey(v):
+    return (1, 0) if v is _OTHER else (0, v)
+
+
+def _mfmt(v):
+    return "other" if v is _OTHER else hex(v)
+
+
+def _machine_vocab(ctx):
+    """The Machine constants of the analysed code (IMAGE_FILE_MACHINE_* of PE_DEF) and of the reference table."""
     cd = ctx.cdefs("pe").get("pestruct")
     vals = {v for k, v in (cd.defines.items() if cd else ()) if k.startswith("IMAGE_FILE_MACHINE_")}
-    vals |= {tables.PE_DEFINES["IMAGE_FILE_MACHINE_AMD64"], tables.PE_DEFINES["IMAGE_FILE_MACHINE_I386"], 0}
+    vals |= {tables.PE_DEFINES["IMAGE_FILE_MACHINE_AMD64"], tables.PE_DEFINES["IMAGE_FILE_MACHINE_I386"]}
     return sorted(vals)
 
 
+def _machine_values(ctx):
+    """The cases of the distinction on FILE.Machine: the vocabulary plus one "any other value" case."""
+    return _machine_vocab(ctx) + [_OTHER]
+
+
 def _mach_leaf(ctx, f, v):
-    """Decides canonical tests on FILE.Machine for the case `FILE.Machine == v`."""
+    """Decides canonical tests on FILE.Machine for the case `FILE.Machine == v` (v a constant of the vocabulary) or for
+    the case "any other value" (v is _OTHER: unequal to every constant of the vocabulary, unknown otherwise)."""
+    known = set(_machine_vocab(ctx))
 
     def leaf(e):
         if isinstance(e, ast.Compare) and len(e.ops) == 1:
@@ -544,7 +716,7 @@ def _mach_leaf(ctx, f, v):
                 return None
             if isinstance(op, (ast.Eq, ast.NotEq)):
                 c = _const_of(ctx, f, r)
-                if c is _NOCONST:
+                if c is _NOCONST or (v is _OTHER and c not in known):
                     return None
                 return (v == c) if isinstance(op, ast.Eq) else (v != c)
             if isinstance(op, (ast.In, ast.NotIn)):
@@ -553,7 +725,7 @@ def _mach_leaf(ctx, f, v):
                 else:
                     cs = _const_of(ctx, f, r)
                     cs = list(cs) if isinstance(cs, (tuple, list, set, frozenset, dict)) else [_NOCONST]
-                if any(c is _NOCONST for c in cs):
+                if any(c is _NOCONST for c in cs) or (v is _OTHER and any(c not in known for c in cs)):
                     return None
                 return (v in cs) if isinstance(op, ast.In) else (v not in cs)
         if isinstance(e, (ast.Subscript, ast.Call, ast.IfExp)):
@@ -561,7 +733,7 @@ def _mach_leaf(ctx, f, v):
             if isinstance(pv, ast.Constant):
                 return bool(pv.value)
         if _u(e) == "FILE.Machine":
-            return bool(v)
+            return None if v is _OTHER else bool(v)
         return None
 
     return leaf
@@ -586,6 +758,8 @@ def _pick(ctx, f, e, leaf, v):
             ks = [_const_of(ctx, f, k) for k in table.keys]
             if not any(k is _NOCONST for k in ks):
                 tv = dict(zip(ks, table.values))
+        if tv is not None and v is _OTHER and any(k not in set(_machine_vocab(ctx)) for k in tv):
+            tv = None  # a key outside the vocabulary: the "other" case may or may not hit it
         if tv is not None:
             if v in tv:
                 return tv[v]
@@ -919,7 +1093,7 @@ def _scanner_summary(ctx, f):
     out["file"] = rel(fh_.cpos) if fh_ is not None else None
     out["lfanew"] = sorted(repr(p) for p in _ineqs(cn, _dom_facts(ctx, f, fh_.node))) if fh_ is not None else None
     acc, _rets = _accepts(ctx, f, cn)
-    out["machines"] = sorted(acc)
+    out["machines"] = [_mfmt(x) for x in sorted(acc, key=_mkey)]
     fv = FuncView.of(f.node)
     eof = {}
     for role in ("DOS", "FILE"):
@@ -1002,12 +1176,12 @@ def r3(ctx):
     if not rets:
         ctx.undecided("R3", "TABLE", a, "accepted machines", "no return of a found offset is identified")
     else:
-        ctx.ob("R3", "TABLE", a, "accepted machines", sorted(acc) == sorted([AMD64, I386]), f"find_mz_offset reports a hit for Machine in {[hex(x) for x in sorted(acc)]} (required AMD64 {AMD64:#x} and I386 {I386:#x} only)")
+        ctx.ob("R3", "TABLE", a, "accepted machines", set(acc) == {AMD64, I386}, f"find_mz_offset reports a hit for Machine in {[_mfmt(x) for x in sorted(acc, key=_mkey)]} (required AMD64 {AMD64:#x} and I386 {I386:#x} only)")
     m, rets = _accepts(ctx, b, _view(ctx, b).cn)
     if not rets:
         ctx.undecided("R3", "TABLE", b, "machine -> architecture", "no return of an architecture is identified")
     else:
-        ctx.ob("R3", "TABLE", b, "machine -> architecture", m == {AMD64: {"x64"}, I386: {"x86"}}, "mapping " + str({hex(k): sorted(map(str, vs)) for k, vs in sorted(m.items())}))
+        ctx.ob("R3", "TABLE", b, "machine -> architecture", m == {AMD64: {"x64"}, I386: {"x86"}}, "mapping " + str({_mfmt(k): sorted(map(str, vs)) for k, vs in sorted(m.items(), key=lambda kv: _mkey(kv[0]))}))
     # 64-bit optional header exactly on AMD64
     for fq in ("pe.find_compile_stamps", "pe.find_stage_prepend_append"):
         f = ctx.repo.func(fq)
@@ -1020,7 +1194,7 @@ def r3(ctx):
         for s in opts:
             cases = _machine_cases(ctx, f, v.cn, [(v.cn.canon(n, full=True), pol) for n, pol in _dom_facts(ctx, f, s.node)])
             is64 = s.what.lstrip("_").endswith("64")
-            seen[s.what.lstrip("_")] = [hex(x) for x in cases]
+            seen[s.what.lstrip("_")] = [_mfmt(x) for x in cases]
             ok = ok and (cases == [AMD64] if is64 else (AMD64 not in cases and I386 in cases))
         ctx.ob("R3", "AGREE", f, "optional header selection", ok and len(seen) == 2, f"optional header variant parsed for Machine in: {seen} (64-bit one exactly on AMD64, 32-bit one on I386 and never on AMD64)")
 
@@ -1078,11 +1252,16 @@ def r4(ctx):
     # cross-table: a version that appears in both tables has the same date text... (May 02 vs May 04 2019 are distinct builds)
 
 
-# ============================================================================ scenario-wise symbolic execution
-# A small path-enumerating evaluator for loop-free code (loops over literal sequences are unrolled).  Values are
-# expressions over the inputs; a `decide` callback fixes the truth of the tests that define the scenario under analysis,
-# every other undecidable test forks.  Independent of statement shapes: nested ifs, early returns, conditional
-# expressions, temporaries, walrus, tuple unpacking and comprehensions over literal sequences all evaluate to the same values.
+# ============================================================================ path-wise value flow (term builder)
+# Walks the paths of loop-free code and builds, per path, the symbolic *terms* of the values (allowed device 3): the
+# inputs stay names, definitions are substituted, nothing is ever computed on concrete input data - the only folding is
+# constant folding of constant sub-expressions of the code itself (device 6).  A `decide` callback states the named
+# assumption of the case under analysis (device 2/5: the abstract outcome of one of the code's own tests); a test that
+# neither constants nor the assumption decide forks, and the fork is recorded in the path condition.  The only loop
+# form accepted is `for x in <tuple/list display of the code>`: a finite sequence of cases written in the code (device
+# 5), followed element by element; every other loop, `try`, `while`, `match` ... makes the caller's obligation undecided.
+# Independent of statement shapes: nested ifs, early returns, conditional expressions, temporaries, walrus, tuple
+# unpacking and comprehensions over literal sequences all give the same terms.
 class _Unsupported(Exception):
     pass
 
@@ -1391,7 +1570,8 @@ def _r5_precedence(ctx):
     text = "version precedence"
     STAMP = "self.pe_export_stamp"
 
-    # the export stamp is None (no export directory), 0, or a non-zero timestamp: three concrete scenarios
+    # case analysis over the abstract outcomes of the truth test of an Optional[int] (lemma L2): the export stamp is None
+    # (no export directory), 0, or a non-zero unsigned timestamp (kept symbolic; lemma L3)
     def scenario(s):
         def rewrite(e):
             if s != "set" and isinstance(e, ast.Attribute) and _u(e) == STAMP:
@@ -1463,16 +1643,234 @@ def _r5_lookups(ctx):
         ctx.ob("R5", "AGREE", g, text, ok, "looks up its own table with default 'Unknown'" if ok else f"lookup is {[_u(c) for c in gets]}")
 
 
+# ---------------------------------------------------------------------------- the version regex, by its syntax tree
+# Tokens of a parsed pattern (sequence context; unnamed / non-capturing groups are transparent):
+#   ("lit", text)                  a run of literal characters
+#   ("num", name, min, max)        a named group whose sub-pattern is a run of digit-class items (max None = unbounded)
+#   ("any", name, min, max)        a named group `.*` / `.+` / `[^)]*` / `[^)]+`
+#   ("opt", [tokens])              a greedy `( .. )?`
+#   ("at", which)                  an anchor
+#   ("?", description)             anything else (not recognised)
+_RX_FORMAT = [("lit", "Cobalt Strike "), ("num", "major"), ("lit", "."), ("num", "minor"), ("opt", [("lit", "."), ("num", "patch")]),
+              ("lit", " ("), ("any", "date"), ("lit", ")")]
+_RX_GROUPS = ["major", "minor", "patch", "date"]
+
+
+def _rx_unbounded(n):
+    return None if n == _sre_c.MAXREPEAT else int(n)
+
+
+def _rx_is_digit_item(item):
+    """The item matches exactly one character, and only a decimal digit: `\d`, `[0-9]`, `[\d]`, `[0-4]`, a digit literal."""
+    op, av = item
+    if op is _sre_c.LITERAL:
+        return 48 <= av <= 57
+    if op is _sre_c.IN:
+        if not av:
+            return False
+        for o2, a2 in av:
+            if o2 is _sre_c.CATEGORY and a2 is _sre_c.CATEGORY_DIGIT:
+                continue
+            if o2 is _sre_c.RANGE and 48 <= a2[0] <= a2[1] <= 57:
+                continue
+            if o2 is _sre_c.LITERAL and 48 <= a2 <= 57:
+                continue
+            return False  # NEGATE, other categories, other characters
+        return True
+    return False
+
+
+def _rx_is_any_item(item):
+    """`.` or `[^)]`: any character (but the closing parenthesis)"""
+    op, av = item
+    if op is _sre_c.ANY:
+        return True
+    if op is _sre_c.NOT_LITERAL:
+        return av == 41
+    if op is _sre_c.IN:
+        return len(av) == 2 and av[0][0] is _sre_c.NEGATE and av[1] == (_sre_c.LITERAL, 41)
+    return False
+
+
+def _rx_group_body(body):
+    """("num"|"any", min, max) for the sub-pattern of a named group, None when it is of no recognised form."""
+    items = list(body)
+    if not items:
+        return None
+    lo, hi, kinds = 0, 0, set()
+    for op, av in items:
+        if op is _sre_c.MAX_REPEAT and len(av[2]) == 1 and _rx_is_digit_item(av[2][0]):
+            kinds.add("num")
+            mn, mx = int(av[0]), _rx_unbounded(av[1])
+        elif _rx_is_digit_item((op, av)):
+            kinds.add("num")
+            mn, mx = 1, 1
+        elif op in (_sre_c.MAX_REPEAT, _sre_c.MIN_REPEAT) and len(av[2]) == 1 and _rx_is_any_item(av[2][0]) and len(items) == 1:
+            kinds.add("any")
+            mn, mx = int(av[0]), _rx_unbounded(av[1])
+        else:
+            return None
+        lo += mn
+        hi = None if hi is None or mx is None else hi + mx
+    if len(kinds) != 1:
+        return None
+    return kinds.pop(), lo, hi
+
+
+def _rx_tokens(sub, names):
+    out = []
+
+    def push(tok):
+        if tok[0] == "lit" and out and out[-1][0] == "lit":
+            out[-1] = ("lit", out[-1][1] + tok[1])
+        else:
+            out.append(tok)
+
+    for op, av in sub:
+        if op is _sre_c.LITERAL:
+            push(("lit", chr(av)))
+        elif op is _sre_c.AT:
+            push(("at", str(av)))
+        elif op is _sre_c.SUBPATTERN:
+            group, add_flags, del_flags, body = av
+            name = names.get(group)
+            if add_flags or del_flags:
+                push(("?", "a group with inline flags"))
+            elif name is None:
+                for t in _rx_tokens(body, names):
+                    push(t)
+            else:
+                kind = _rx_group_body(body)
+                push((kind[0], name, kind[1], kind[2]) if kind else ("?", f"named group <{name}> with a sub-pattern that is neither a run of digits nor `.*`/`[^)]*`"))
+        elif op is _sre_c.MAX_REPEAT and int(av[0]) == 0 and _rx_unbounded(av[1]) == 1:
+            push(("opt", _rx_tokens(av[2], names)))
+        else:
+            push(("?", str(op).lower()))
+    return out
+
+
+def _rx_walk(toks, depth=0):
+    for t in toks:
+        yield t, depth
+        if t[0] == "opt":
+            yield from _rx_walk(t[1], depth + 1)
+
+
+def _rx_shape(toks):
+    return [(t[0], _rx_shape(t[1])) if t[0] == "opt" else (t[0], t[1]) if t[0] in ("num", "any") else (t[0],) for t in toks]
+
+
+def _rx_lits(toks):
+    return [x for t in toks for x in (_rx_lits(t[1]) if t[0] == "opt" else [t[1]] if t[0] == "lit" else [])]
+
+
+def _table_components(ctx):
+    """Widths of the version components that occur in the two tables: {"major": (min, max), ..}; the date texts' widths
+    under "date"; whether a release without / with a patch component occurs.  The rows are parsed with the checker's own
+    format parser (R4 reports the rows that do not have the format)."""
+    env = module_env(ctx.repo.module("version"))
+    widths = {}
+    arity = set()
+    for name in _TABLE_OF.values():
+        node = ctx.repo.const(f"version.{name}")
+        if not isinstance(node, ast.Dict):
+            continue
+        for v in node.values:
+            vv = _c(v, env)
+            m = VERSION_RE.match(vv) if isinstance(vv, str) else None
+            if not m:
+                continue
+            parts = {"major": m.group(1), "minor": m.group(2), "patch": m.group(3), "date": f"{m.group(4)} {m.group(5)}, {m.group(6)}"}
+            arity.add(2 if parts["patch"] is None else 3)
+            for k, x in parts.items():
+                if x is not None:
+                    lo, hi = widths.get(k, (len(x), len(x)))
+                    widths[k] = (min(lo, len(x)), max(hi, len(x)))
+    return widths, arity
+
+
+def _regex_facts(ctx):
+    """Syntax-tree facts of BeaconVersion.REGEX_VERSION: dict(status, why, names, tokens)."""
+    cache = ctx.__dict__.setdefault("_c18_regex", {})
+    node = ctx.repo.class_attrs("version.BeaconVersion").get("REGEX_VERSION")
+    if cache.get("node") is node and node is not None:
+        return cache["facts"]
+    rx = _c(node, module_env(ctx.repo.module("version")))
+    facts = {"status": "ok", "why": "", "names": [], "tokens": None, "text": rx}
+    if not isinstance(rx, str):
+        facts.update(status="undecided", why="REGEX_VERSION is not a constant string of the class body")
+    else:
+        try:
+            tree = _sre_parse.parse(rx, 0)
+            names = {idx: nm for nm, idx in tree.state.groupdict.items()}
+            facts["names"] = [names[i] for i in sorted(names)]
+            facts["tokens"] = _rx_tokens(tree, names)
+        except (re.error, RecursionError, OverflowError) as e:
+            facts.update(status="invalid", why=f"the pattern does not parse: {e}")
+    cache["node"], cache["facts"] = node, facts
+    return facts
+
+
 def _r5_regex(ctx):
-    rx = _c(ctx.repo.class_attrs("version.BeaconVersion").get("REGEX_VERSION"), module_env(ctx.repo.module("version")))
-    groups = re.findall(r"\?P<(\w+)>", rx or "")
-    ctx.ob("R5", "TABLE", "version.py::BeaconVersion.REGEX_VERSION", "named groups", groups == ["major", "minor", "patch", "date"], f"named groups {groups}")
-    try:
-        rc = re.compile(rx)
-        sample_ok = rc.match("Cobalt Strike 4.7.1 (Sep 16, 2022)").groupdict() == {"major": "4", "minor": "7", "patch": "1", "date": "Sep 16, 2022"} and rc.match("Cobalt Strike 3.4 (Jul 29, 2016)").group("patch") is None
-    except Exception:
-        sample_ok = False
-    ctx.ob("R5", "TABLE", "version.py::BeaconVersion.REGEX_VERSION", "pattern", sample_ok, "the version regex separates major/minor/optional patch/date")
+    where = "version.py::BeaconVersion.REGEX_VERSION"
+    fx = _regex_facts(ctx)
+    if fx["status"] == "undecided":
+        ctx.undecided("R5", "TABLE", where, "named groups", fx["why"])
+        ctx.undecided("R5", "TABLE", where, "pattern", fx["why"])
+        return
+    if fx["status"] == "invalid":
+        ctx.ob("R5", "TABLE", where, "named groups", False, fx["why"])
+        ctx.ob("R5", "TABLE", where, "pattern", False, fx["why"])
+        return
+    # the four groups exist and are numbered in the order of the text they capture (other named groups may exist)
+    groups = [g for g in fx["names"] if g in _RX_GROUPS]
+    ctx.ob("R5", "TABLE", where, "named groups", groups == _RX_GROUPS, f"named groups in the order of their group numbers: {fx['names']} (required {_RX_GROUPS})")
+    toks = list(fx["tokens"])
+    # anchors at the two ends do not change what `match` captures for a text of the table format
+    while toks and toks[0][0] == "at" and toks[0][1] in ("AT_BEGINNING", "AT_BEGINNING_STRING"):
+        toks.pop(0)
+    while toks and toks[-1][0] == "at" and toks[-1][1] in ("AT_END", "AT_END_STRING"):
+        toks.pop()
+    text = "pattern"
+    located = {t[1]: (t, d) for t, d in _rx_walk(toks) if t[0] in ("num", "any")}
+    widths, arity = _table_components(ctx)
+    # located and wrong, whatever the rest of the pattern looks like: a patch group outside every `( .. )?` takes part in
+    # every match, so the two-component releases of the tables cannot match
+    pt = located.get("patch")
+    if pt is not None and pt[1] == 0 and pt[0][0] == "num" and pt[0][2] >= 1 and 2 in arity and all(t[0] != "?" for t in toks):
+        ctx.ob("R5", "TABLE", where, text, False, "the <patch> group (at least one digit) is not inside an optional `( .. )?` sub-pattern: it takes part in every match, so a release 'M.m (date)' of the tables either does not match or loses digits of its minor component to the patch group")
+        return
+    unrec = [t[1] for t, _d in _rx_walk(toks) if t[0] in ("?", "at")]
+    if unrec:
+        ctx.undecided("R5", "TABLE", where, text, f"the pattern contains constructs outside the recognised forms: {sorted(set(unrec))}")
+        return
+    if _rx_shape(toks) != _rx_shape(_RX_FORMAT):
+        ctx.undecided("R5", "TABLE", where, text, "the sequence of literals, groups and optional parts is not of the form 'Cobalt Strike <major>.<minor>[.<patch>] (<date>)': " + repr(_rx_shape(toks))[:200])
+        return
+    # same shape: every literal of the pattern is mandatory text, so it has to be the literal of the table format
+    got, want = _rx_lits(toks), _rx_lits(_RX_FORMAT)
+    if got != want:
+        ctx.ob("R5", "TABLE", where, text, False, f"literal text of the pattern {got} differs from the format of the table values {want}: no table value can match")
+        return
+    # repeat bounds against the component widths that occur in the tables
+    bad, open_ = [], []
+    for name in _RX_GROUPS:
+        _k, _n, lo, hi = located[name][0]
+        w = widths.get(name)
+        if w is None:
+            continue
+        if hi is not None and hi < w[1]:
+            bad.append(f"<{name}> matches at most {hi} characters, the tables contain a {name} component of {w[1]}")
+        if lo > w[0]:
+            bad.append(f"<{name}> needs at least {lo} characters, the tables contain a {name} component of {w[0]}")
+        if lo == 0 and name != "date":
+            open_.append(f"<{name}> may be empty")
+    if bad:
+        ctx.ob("R5", "TABLE", where, text, False, "; ".join(bad))
+    elif open_:
+        ctx.undecided("R5", "TABLE", where, text, "; ".join(open_) + ": int('') is outside the table format, the lemma 'a group that took part is non-empty' does not apply")
+    else:
+        ctx.ob("R5", "TABLE", where, text, True, "syntax tree: 'Cobalt Strike ' <major: digits>+ '.' <minor: digits>+ ( '.' <patch: digits>+ )? ' (' <date: any> ')' - the version regex separates major/minor/optional patch/date")
 
 
 def _match_rewrite(e):
@@ -1491,6 +1889,9 @@ def _r5_init(ctx):
     init = ctx.repo.func("version.BeaconVersion.__init__")
     text = "tuple/date from the named groups"
     PATCH = _norm_text("M.group('patch')")
+    # lemma L4 needs the syntax-tree fact "the <patch> group is a run of at least one digit" (obligation `pattern`)
+    pt = next((t for t, _d in _rx_walk(_regex_facts(ctx).get("tokens") or []) if t[0] == "num" and t[1] == "patch"), None)
+    l4 = "" if pt is not None and pt[2] >= 1 else " (assuming that a <patch> group that took part in the match is non-empty: not established from the pattern)"
 
     def scenario(present):
         def rewrite(e):
@@ -1503,7 +1904,7 @@ def _r5_init(ctx):
             x = _u(t)
             if x == "M":
                 return True
-            if x == PATCH:  # a group that matched is a non-empty string of digits
+            if x == PATCH:  # case "took part": a non-empty string of digits (lemma L4)
                 return True
             if isinstance(t, ast.Compare) and len(t.ops) == 1 and type(t.ops[0]) in (ast.Is, ast.IsNot, ast.Eq, ast.NotEq):
                 l, r = _u(t.left), t.comparators[0]
@@ -1544,7 +1945,7 @@ def _r5_init(ctx):
                 hit = True
         dt = dt and hit
     ok = not bad and dt
-    ctx.ob("R5", "AGREE", init, text, ok, "3-tuple exactly when the patch group matched, 2-tuple otherwise, elements int() of the named groups; date parsed from the date group with '%b %d, %Y'"
+    ctx.ob("R5", "AGREE", init, text, ok, "3-tuple exactly when the patch group matched, 2-tuple otherwise, elements int() of the named groups; date parsed from the date group with '%b %d, %Y'" + l4
            if ok else "; ".join(bad + ([] if dt else ["self.date is not strptime(<date group>, '%b %d, %Y')"])))
 
 
@@ -1642,14 +2043,15 @@ def r6(ctx):
         s = pre[0]
         ln = cn.poly(s.node.args[0]) if s.node.args else None
         facts = _dom_facts(ctx, f, s.node)
-        # the read is not executed when the image starts the file: some dominating condition is false for MZ == 0
-        zero = _SymExec()
-        guard = any(zero.truth(zero.ev(_subst(cn.canon(n), {"MZ": ast.Constant(value=0)}), {})) is (not pol) for t, p0 in facts for n, pol in _flatten(t, p0))
+        # the read is not executed when the image starts the file: the dominating facts entail MZ != 0 (lemma L6)
+        guard = _excludes_zero(cn, facts, "MZ")
         if s.cpos is None:
             _untracked(ctx, "R6", f, t_pre, v, s, "prepend read")
+        elif guard is None and s.cpos == SymPoly() and ln == MZ:
+            ctx.undecided("R6", "CURSOR", f, t_pre, f"prepend: {ln} bytes read at {s.cpos}; the conditions on the image base that dominate the read are not of a recognised form (whether they exclude image base 0 is not decided)", s.node)
         else:
-            ok = s.cpos == SymPoly() and ln == MZ and guard
-            ctx.ob("R6", "CURSOR", f, t_pre, ok, f"prepend: {ln} bytes read at {s.cpos} (required: MZ bytes at 0), only when the image does not start the file: {guard}", s.node)
+            ok = s.cpos == SymPoly() and ln == MZ and guard is True
+            ctx.ob("R6", "CURSOR", f, t_pre, ok, f"prepend: {ln} bytes read at {s.cpos} (required: MZ bytes at 0), only when the image does not start the file: {guard is True}", s.node)
     # ---- append: read at image base + SizeOfHeaders + sum of SizeOfRawData over the section table
     if not v.has_mz or len(app) != 1:
         ctx.undecided("R6", "CURSOR", f, t_app, f"{len(app)} stream reads flow into the second element of the returned pair / image base not identified")
